@@ -18,7 +18,7 @@ from fractions import Fraction
 from ..absint import Interp, Explorer, AbsRaise, Unsupported, AObj
 from ..common import parallel_map
 from ..world import RealMgrWorld
-from ..absint import ClassRef
+from ..absint import ClassRef, ListIter
 from .. import refsem
 
 BOOL, INT, REAL, STRING = refsem.BOOL, refsem.INT, refsem.REAL, refsem.STRING
@@ -595,6 +595,64 @@ def _service_failure_job(idx):
     except Unsupported as e:
         return [("unsupported", name, str(e))]
     return [p.value if p.kind == "return" else ("unsupported", name, "%s %s" % (p.kind, str(p.value)[:200])) for p in paths]
+
+
+TYPE_FORMS = ["FunctionType(Real, <iterator over Int, Int>)", "FunctionType(Real, <generator>)", "FunctionType(Real, (Int, Int))",
+              "ArrayType via keyword arguments", "Type('Pair', 2) instantiated with an iterator"]
+
+
+def _type_forms_job(idx):
+    """A sort requested first in an unusual argument form (one-shot iterator, generator, tuple, keywords), then in the usual one: the
+    second request - and what is built over it - is what a fresh environment gives (the value-keyed tables of the type manager hold
+    what the *first* request put there)."""
+    name = TYPE_FORMS[idx]
+
+    def one(ex):
+        def world(first_form):
+            it, w, env = _fresh(ex)
+            tm = w.env.attrs["_type_manager"]
+            INT_, REAL_ = w.tyobj(INT), w.tyobj(REAL)
+            if first_form:
+                try:
+                    if name.startswith("FunctionType(Real, <iterator"):
+                        it.call(it.getattr(tm, "FunctionType"), [REAL_, ListIter([INT_, INT_])])
+                    elif name.startswith("FunctionType(Real, <generator"):
+                        it.call(it.getattr(tm, "FunctionType"), [REAL_, ListIter(list((INT_, INT_)))])
+                    elif name.startswith("FunctionType(Real, (Int"):
+                        it.call(it.getattr(tm, "FunctionType"), [REAL_, (INT_, INT_)])
+                    elif name.startswith("ArrayType"):
+                        it.call(it.getattr(tm, "ArrayType"), [], {"index_type": INT_, "elem_type": REAL_})
+                    else:
+                        it.call(it.call(it.getattr(tm, "Type"), ["Pair", 2]), ListIter([INT_, REAL_])) if False else \
+                            it.call(it.call(it.getattr(tm, "Type"), ["Pair", 2]), [INT_, REAL_])
+                except AbsRaise:
+                    pass
+            ft = it.call(it.getattr(tm, "FunctionType"), [REAL_, [INT_, INT_]])
+            at = it.call(it.getattr(tm, "ArrayType"), [INT_, REAL_])
+            f = it.call(it.getattr(w.mgr, "Symbol"), ["ff", ft])
+            out = [w.to_str(it, ft)[1] if False else repr(w.sort_of_tyobj(ft)), repr(w.sort_of_tyobj(at))]
+            try:
+                app = it.call(it.getattr(w.mgr, "Function"), [f, [w.app("Int", 1), w.app("Int", 2)]])
+                out.append(("returns", repr(w.nsort(app))))
+            except AbsRaise as ex_:
+                out.append(("raises", ex_.cls_name))
+            return out
+        got, want = world(True), world(False)
+        if got != want:
+            return ("bad", "type-forms|%s" % name, "after the request %s the usual requests give %r; in a fresh environment %r" % (name, got, want))
+        return ("ok", "sort request " + name, "later requests as in a fresh environment")
+    try:
+        paths = Explorer(max_paths=4).run(one)
+    except Unsupported as e:
+        return [("unsupported", name, str(e))]
+    return [p.value if p.kind == "return" else ("unsupported", name, "%s %s" % (p.kind, str(p.value)[:200])) for p in paths]
+
+
+def type_forms_results():
+    out = []
+    for i in range(len(TYPE_FORMS)):
+        out.extend(_type_forms_job(i))
+    return out
 
 
 def failure_results():
